@@ -1,6 +1,6 @@
 //! data query expressions parser.
 use crate::debugger::variable::dqe::{Dqe, Literal, LiteralOrWildcard, PointerCast, Selector};
-use crate::ui::command::parser::{hex, rust_identifier};
+use crate::ui::command::parser::{hex, number, rust_identifier};
 use chumsky::Parser;
 use chumsky::prelude::*;
 use std::collections::HashMap;
@@ -46,10 +46,10 @@ pub fn literal<'a>() -> impl Parser<'a, &'a str, Literal, Err<'a>> + Clone {
     recursive(|literal| {
         let int = just("-")
             .or_not()
-            .then(text::int(10).from_str::<u64>().unwrapped())
+            .then(number::<u64>())
             .map(|(sign, val)| {
                 Literal::Int(if sign.is_some() {
-                    -(val as i64)
+                    (val as i64).wrapping_neg()
                 } else {
                     val as i64
                 })
@@ -158,7 +158,15 @@ pub fn parser<'a>() -> impl Parser<'a, &'a str, Dqe, Err<'a>> {
         let mb_usize = text::int(10)
             .or_not()
             .padded()
-            .map(|v: Option<&str>| v.map(|v| v.parse::<usize>().unwrap()));
+            .validate(|v: Option<&str>, e, emitter| {
+                v.map(|v| match v.parse::<usize>() {
+                    Ok(num) => num,
+                    Err(err) => {
+                        emitter.emit(Rich::custom(e.span(), err));
+                        0
+                    }
+                })
+            });
 
         let slice_op = mb_usize
             .then_ignore(just("..").padded())
